@@ -6,13 +6,15 @@ grammar (enginelib.gen_antecedent, 1-2 conclusions with hedges, optional weight 
 token deletion, duplication, substitution (keywords, names, hedges, numbers, parentheses, formula-operator characters,
 comments), truncation at every token boundary, adjacent swaps, glued parentheses / odd blanks, plus ONE injected error
 of each listed class (missing_if, missing_then, missing_is, missing_operand, missing_term, missing_variable,
-unknown_variable, unknown_term, unbalanced_parenthesis, non_numeric_weight, trailing_token).
+unknown_variable, unknown_term, unbalanced_parenthesis, non_numeric_weight, trailing_token, and missing_connective: one
+`and`/`or` between two propositions deleted, swept over EVERY connective position of every base rule, with and without parentheses).
 For every text: `Rule.create(text)` (parse), `rule.load(engine)`, then `rule.is_loaded()`, `antecedent.is_loaded()`,
 `consequent.is_loaded()` and the loaded trees.
 Correspondence: the Coq model Model/RuleText.v (`create_gen ascii_float_syntax code_has_F6`, run by vm_compute) must give the
 same exception class (err enum), the same three flags and the same loaded antecedent tree / conclusions; RuleBlock.load_rules
 (after a first load against another engine) against `load_rules`; a second Rule.load against another engine without unload
-against `rule_load`; Python's float() against `ascii_float_syntax`.
+against `rule_load`; the text setter on a loaded rule (Rule.parse with another text, then Rule.load) against parse_text +
+`rule_load` on the old trees; Python's float() against `ascii_float_syntax`.
 Direct oracle (the property, on the public API only): never an internal error class; never is_loaded() after a failed load;
 an accepted rule exports (str, repr) and evaluates (activate_with, trigger) without exception; a rule with exactly one
 injected error of a listed class (clean engines only) is never accepted.
@@ -44,7 +46,7 @@ UNKNOWN = ["foo", "Zz_9", "in9", "t99", "out7", "o77"]
 NUMBERS = ["0.5", "1", "1.0", "1e-3", "nan", "inf", "-inf", "+.5", "1_0", "1__0", "0x10", "1e", "e5", ".", "1.", "--1", "Infinity", "NaN", "1E+2", "_1", "1_", "1._5", "1e1_0", "- 1", "5.", ".e1", "1.5.2", "+", "infinit"]
 PUNCT = ["(", ")", ",", "+", "-", "*", "/", "^", "%", "!", "~", ".", "**", "#", "a+b", "x(y", "(("]
 ODD_NAMES = ["is", "and", "or", "if", "then", "with", "very", "not", "any", "max", "pi", "abs", "1.5", "inf", "x(y", "a.b", "in0", "out0", "t00", "o00"]
-CLASSES = ["missing_if", "missing_then", "missing_is", "missing_operand", "missing_term", "missing_variable", "unknown_variable",
+CLASSES = ["missing_if", "missing_then", "missing_is", "missing_operand", "missing_connective", "missing_term", "missing_variable", "unknown_variable",
            "unknown_term", "unbalanced_parenthesis", "non_numeric_weight", "trailing_token"]
 INTERNAL = "EInternal"
 
@@ -95,6 +97,18 @@ Definition c16_reload_check (c : c16_reload_case) : bool :=
   let '(eA, eB, text, (ex, l, a, q)) := c in
   let o := fst (@create_gen float ascii_float_syntax code_has_F6 eA text) in
   let '(ex', l', a', q') := observe (@rule_load float code_has_F6 eB o) in
+  oerr_eqb ex ex' && Bool.eqb l l' && Bool.eqb a a' && Bool.eqb q q'.
+(* the text setter on a loaded rule: rule created and loaded against e with text1, rule.parse(text2), rule.load(e).
+   Rule.parse assigns only the texts and the weight (and nothing when it raises); the loaded trees stay until load. *)
+Definition c16_reparse_case : Type := (engine float * string * string * (option err * bool * bool * bool))%type.
+Definition c16_reparse_check (c : c16_reparse_case) : bool :=
+  let '(e, text1, text2, (ex, l, a, q)) := c in
+  let o := fst (@create_gen float ascii_float_syntax code_has_F6 e text1) in
+  let p := match parse_text ascii_float_syntax text2 with
+           | Err x => (o, Some x)
+           | Ok rt => @rule_load float code_has_F6 e {| ro_text := rt; ro_expression := ro_expression o; ro_conclusions := ro_conclusions o |}
+           end in
+  let '(ex', l', a', q') := observe p in
   oerr_eqb ex ex' && Bool.eqb l l' && Bool.eqb a a' && Bool.eqb q q'.
 (* float(token) *)
 Definition c16_float_case : Type := (string * bool)%type.
@@ -273,6 +287,12 @@ def proposition_spans(toks, lo, hi):
     return spans
 
 
+def connective_positions(toks):
+    """Positions of the `and` / `or` tokens of a grammar-generated rule (antecedent connectives and the consequent's `and`)."""
+    iw = toks.index("with") if "with" in toks else len(toks)
+    return [i for i in range(1, iw) if toks[i] in ("and", "or")]
+
+
 def inject(rng, toks, desc, cls):
     """Exactly one error of class cls in a grammar-generated rule; None when the rule offers no place for it."""
     it = toks.index("then")
@@ -323,6 +343,12 @@ def inject(rng, toks, desc, cls):
         if sp is None:  # the operand is parenthesised: double the connective instead
             return toks[:i] + [toks[i]] + toks[i:]
         return toks[:sp[0]] + toks[sp[1]:]
+    if cls == "missing_connective":  # one `and` / `or` between two operands deleted (antecedent, or the `and` of the consequent)
+        ops = connective_positions(toks)
+        if not ops:
+            return None
+        i = rng.choice(ops)
+        return toks[:i] + toks[i + 1:]
     if cls == "unbalanced_parenthesis":
         i = rng.randrange(1, it + 1)
         k = rng.random()
@@ -431,7 +457,9 @@ FLL_WORDS = ["true", "false", "none", "nan", "inf", "-inf", "Triangle", "Ramp", 
 
 def fll_sources(fl, rng, n_generated):
     out = []
-    for fn in sorted(glob.glob("/repo/fuzzylite/examples/**/*.fll", recursive=True)):
+    import os
+
+    for fn in sorted(glob.glob(os.path.join(os.path.dirname(fl.__file__), "examples", "**", "*.fll"), recursive=True)):
         out.append((fn.rsplit("/", 1)[-1], open(fn).read()))
     for k in range(n_generated):
         desc = enginelib.gen_engine(rng, "mixed", activations=("General", "First", "Last", "Highest", "Lowest", "Proportional", "Threshold"), weighted=True)
@@ -519,7 +547,8 @@ def run(ctx, build, verdict, ev):
     engines_lit, lits, index = [], [], []
     block_lits, block_index = [], []
     reload_lits, reload_index = [], []
-    n_reload = 0
+    reparse_lits, reparse_index = [], []
+    n_reload = n_reparse = 0
     float_tokens = set(NUMBERS + ["0.5", "1.0", "1e5", "nan", "inf"])
     accepted = rejected = 0
     sig_count: dict[str, int] = {}
@@ -532,11 +561,12 @@ def run(ctx, build, verdict, ev):
             real_add(signature, what, replay)
 
     def flush():
-        nonlocal engines_lit, lits, index, block_lits, block_index, reload_lits, reload_index
+        nonlocal engines_lit, lits, index, block_lits, block_index, reload_lits, reload_index, reparse_lits, reparse_index
         if lits or block_lits:
             imports = IMPORTS_HEAD + "\n".join(f"Definition eng_{k} : engine float := {lit}." for k, lit in enumerate(engines_lit)) + "\n"
-            batches.append((imports, lits, index, block_lits, block_index, reload_lits, reload_index))
+            batches.append((imports, lits, index, block_lits, block_index, reload_lits, reload_index, reparse_lits, reparse_index))
         engines_lit, lits, index, block_lits, block_index, reload_lits, reload_index = [], [], [], [], [], [], []
+        reparse_lits, reparse_index = [], []
 
     prev = None  # (engine name in batch, real engine) of the previous world, for the load_rules cases
     for eno in range(n_engines):
@@ -547,10 +577,14 @@ def run(ctx, build, verdict, ev):
         engines_lit.append(enginelib.lit_engine(fl, desc, engine))
         dist["engine"]["odd" if odd else "clean"] += 1
         parsed_texts = []
+        accepted_texts, all_texts = [], []
         base = None
+        pending = []
         for tno in range(per_engine):
             if base is None or tno % 10 == 0:
                 base = gen_rule(rng, desc) or tokenize("if in0 is t00 then out0 is o00")
+                # every connective position of the new base rule (clean engines): the keyword `and` / `or` missing
+                pending = [] if odd or "then" not in base else [base[:i] + base[i + 1:] for i in connective_positions(base)][:6]
             r = rng.random()
             cls = None
             if tno in (1, 2) and not odd and "then" in base:  # the two shapes of finding F6: an antecedent ending in `is` / in a hedge
@@ -558,6 +592,8 @@ def run(ctx, build, verdict, ev):
                 sp = proposition_spans(base, 1, it)[-1]
                 kind = "probe:ends-in-is" if tno == 1 else "probe:ends-in-hedge"
                 toks = base[:sp[0] + 2] + ([] if tno == 1 else [rng.choice(["very", "not", "somewhat"])]) + [")"] * base[sp[1]:it].count(")") + base[it:]
+            elif pending and tno % 10 >= 3:
+                cls, kind, toks = "missing_connective", "inject:missing_connective", pending.pop()
             elif r < 0.06:
                 kind, toks = "valid", list(base)
             elif r < 0.30:
@@ -617,6 +653,7 @@ def run(ctx, build, verdict, ev):
                     add_once(f"rule:accepted-malformed:{cls}", f"rule {text!r} with one injected error ({cls}) is accepted", replay)
                     oracle_violations += 1
                 parsed_texts.append(text)
+                accepted_texts.append(text)
             else:
                 rejected += 1
                 if o["stage"] == "load":
@@ -624,6 +661,7 @@ def run(ctx, build, verdict, ev):
             if cls is not None:
                 dist["injected"][cls]["texts"] += 1
                 dist["injected"][cls]["rejected"] += o["exc"] is not None
+            all_texts.append(text)
             # ---- correspondence case
             flags, x, cs = obs_lit(fl, engine, o)
             lits.append(f"(eng_{ek}, {vlib.coq_string(text)}, {flags}, {x}, {cs})")
@@ -636,6 +674,37 @@ def run(ctx, build, verdict, ev):
                 nontrivial.add(text)
             if len(samples) < 8 and (tno + eno) % 97 == 3:
                 samples.append({"text": text, "mutation": kind, "implementation": index[-1]["impl"]})
+        # ---- the text setter on a loaded rule: valid rule loaded, re-parsed with another text of this engine's stream, loaded again
+        if accepted_texts and all_texts:
+            for _ in range(12):
+                t1 = rng.choice(accepted_texts)
+                t2 = rng.choice(all_texts)
+                rr = fl.Rule.create(t1, engine)
+                stage = "parse"
+                try:
+                    rr.parse(t2)
+                    stage = "load"
+                    rr.load(engine)
+                    rex = None
+                except BaseException as ex:  # noqa: BLE001
+                    rex = err_class(ex)
+                    rp = {"kind": "reparse", "engine": desc, "text": t1, "text2": t2}
+                    if rex == INTERNAL:
+                        add_once(f"rule:internal-error:reparse:{type(ex).__name__}@{where(ex)}", f"rule {t1!r} re-parsed with {t2!r}: {stage} raises {type(ex).__name__}: {ex}", rp)
+                        oracle_violations += 1
+                    if stage == "load" and rr.is_loaded():
+                        add_once("rule:loaded-after-failed-load", f"loaded rule {t1!r}, text set to {t2!r}: load fails ({type(ex).__name__}: {str(ex)[:80]}) but is_loaded() stays True", rp)
+                        oracle_violations += 1
+                if rex is None:
+                    problem = use_rule(fl, engine, rr) if rr.is_loaded() else "is_loaded() is False after a successful load"
+                    if problem:
+                        add_once("rule:accepted-not-usable", f"rule {t1!r} re-parsed with {t2!r} cannot be exported/evaluated: {problem}", {"kind": "reparse", "engine": desc, "text": t1, "text2": t2})
+                        oracle_violations += 1
+                rexl = "None" if rex is None else f"(Some {rex})"
+                reparse_lits.append(f"(eng_{ek}, {vlib.coq_string(t1)}, {vlib.coq_string(t2)}, ({rexl}, {str(bool(rr.is_loaded())).lower()}, "
+                                    f"{str(bool(rr.antecedent.is_loaded())).lower()}, {str(bool(rr.consequent.is_loaded())).lower()}))")
+                reparse_index.append({"text": t1, "text2": t2, "exc": rex, "stage": stage})
+                n_reparse += 1
         # ---- RuleBlock.load_rules: rules first loaded against this engine, then the block loaded against the previous engine
         if prev is not None and parsed_texts:
             pk, pengine, pdesc = prev
@@ -736,9 +805,10 @@ def run(ctx, build, verdict, ev):
     mism, block_mism, float_mism = [], [], []
     coq_failed = False
     if not build.translation_errors:
-        for bno, (imports, lits_b, index_b, bl, bi, rl, ri) in enumerate(batches):
-            groups = [("c16_case", "c16_check", lits_b), ("c16_block_case", "c16_block_check", bl + []), ("c16_reload_case", "c16_reload_check", rl)]
-            bi = bi + ri
+        for bno, (imports, lits_b, index_b, bl, bi, rl, ri, pl, pi) in enumerate(batches):
+            groups = [("c16_case", "c16_check", lits_b), ("c16_block_case", "c16_block_check", bl + []), ("c16_reload_case", "c16_reload_check", rl),
+                      ("c16_reparse_case", "c16_reparse_check", pl)]
+            bi = bi + ri + pi
             if bno == 0:
                 groups.append(("c16_float_case", "c16_float_check", float_lits))
             bad, log = vlib.run_coq_cases(ctx.work, f"c16_{bno}", imports, groups, chunk=500)
@@ -758,7 +828,7 @@ def run(ctx, build, verdict, ev):
         m = mism[0]
         verdict.add_broken("correspondence", "C16:rule-text-model", f"Model/RuleText.v and Rule.create/load differ on {len(mism)} texts; first: {m['text']!r}: implementation {m['impl']}; replay: {m['replay']}")
     if block_mism:
-        what = "Rule.load on an already loaded rule (rule_load)" if "text" in block_mism[0] else "RuleBlock.load_rules (load_rules)"
+        what = ("Rule.parse + Rule.load on a loaded rule" if "text2" in block_mism[0] else "Rule.load on an already loaded rule (rule_load)") if "text" in block_mism[0] else "RuleBlock.load_rules (load_rules)"
         verdict.add_broken("correspondence", "C16:reload-model", f"{what} and the model differ on {len(block_mism)} block/reload cases; first: {block_mism[0]}")
     if float_mism:
         verdict.add_broken("correspondence", "C16:float-syntax", f"float(token) and ascii_float_syntax differ on {float_mism[:10]}")
@@ -846,8 +916,9 @@ def run(ctx, build, verdict, ev):
     c = ev["coverage"]
     n_rule_cases = sum(len(b[1]) for b in batches)
     n_block_cases = sum(len(b[3]) for b in batches)
-    c["evaluations"] = n_rule_cases + n_block_cases + n_reload + len(float_lits) + n_fll + len(sources)
+    c["evaluations"] = n_rule_cases + n_block_cases + n_reload + n_reparse + len(float_lits) + n_fll + len(sources)
     c["rule_reloads"] = n_reload
+    c["rule_reparses"] = n_reparse
     c["rule_texts"] = n_rule_cases
     c["rule_blocks"] = n_block_cases
     c["float_tokens"] = len(float_lits)
@@ -856,7 +927,7 @@ def run(ctx, build, verdict, ev):
     c["rule"] = ("random engines (enginelib.gen_engine; 20% with colliding/odd names, a variable without terms, duplicated names) x valid grammar rules "
                  "(depth 0-3 antecedents with parentheses, hedges, any, output variables; 1-3 conclusions; weights in many float spellings) x "
                  "token deletion/duplication/substitution/insertion/truncation/swap/range deletion, glued parentheses, odd blanks, comments, "
-                 "and one injected error of each of the 11 listed classes; non-trivial = distinct mutated (not valid) texts")
+                 "and one injected error of each of the 12 classes (the 11 listed + missing connective, swept over every connective position); non-trivial = distinct mutated (not valid) texts")
     c["distribution"] = dist
     c["accepted"] = accepted
     c["rejected"] = rejected
@@ -907,6 +978,17 @@ def replay(ctx, data):
             print("  now:", run_fll(fl, r["text"]))
         elif r.get("kind") == "block":
             print("  texts:", r["texts"])
+        elif r.get("kind") == "reparse":
+            eng = enginelib.build_engine(fl, r["engine"])
+            rr = fl.Rule.create(r["text"], eng)
+            print("  loaded with", repr(r["text"]), "is_loaded:", rr.is_loaded())
+            try:
+                rr.parse(r["text2"])
+                rr.load(eng)
+                out = "ok"
+            except BaseException as ex:  # noqa: BLE001
+                out = f"{type(ex).__name__}: {ex}"
+            print("  text set to", repr(r["text2"]), "-> load:", out, " is_loaded:", rr.is_loaded())
         elif r.get("kind") == "reload":
             e1, e2 = enginelib.build_engine(fl, r["engine"]), enginelib.build_engine(fl, r["engine2"])
             rr = fl.Rule.create(r["text"])
